@@ -213,6 +213,7 @@ pub struct Stats {
     pub unknown_after_interrupt: u64,
     pub inconclusive: u64,
     pub aborted: u64,
+    pub bound_changes: u64,
     pub states: Vec<u64>,
     pub probes: BTreeMap<String, u64>,
 }
@@ -229,7 +230,7 @@ pub struct Outcome {
 
 impl Outcome {
     pub fn nontrivial(&self) -> bool {
-        self.stats.learned >= 1 || self.stats.decisions >= 2
+        self.stats.learned >= 1 || self.stats.decisions >= 2 || self.stats.bound_changes >= 1
     }
 }
 
@@ -255,6 +256,9 @@ thread_local! {
 
 /// Installs a panic hook which records location and message instead of printing.
 pub fn install_panic_hook() {
+    if std::env::var("VERIF_BACKTRACE").is_ok() {
+        return; // development aid: keep the default hook (prints the backtrace)
+    }
     std::panic::set_hook(Box::new(|info| {
         let loc = info.location().map(|l| format!("{}:{}", l.file().rsplit("/src/").next().unwrap_or(l.file()), l.line())).unwrap_or_default();
         let msg = if let Some(s) = info.payload().downcast_ref::<&str>() {
@@ -619,6 +623,9 @@ impl<'c> Exec<'c> {
                 if lb < plb || ub > pub_ {
                     return viol(self.cur_op, "I-BOUNDS:not-monotone", format!("x{i}: reported bounds went from [{plb},{pub_}] to [{lb},{ub}]"));
                 }
+                if lb != plb || ub != pub_ {
+                    self.stats.bound_changes += 1;
+                }
                 self.prev_bounds[i] = (lb, ub);
             } else {
                 self.prev_bounds.push((lb, ub));
@@ -639,6 +646,7 @@ impl<'c> Exec<'c> {
             }
         }
         self.states.insert(state);
+        self.trace.add(state);
         Ok(())
     }
 
@@ -979,6 +987,17 @@ impl<'c> Exec<'c> {
 
     fn step(&mut self, op: &Op) -> V<()> {
         self.trace.add_s(op.name());
+        // ops over variables whose creation was skipped (see AddVar) are skipped as well
+        let max_var = match op {
+            Op::Post(c) => c.scope().into_iter().max(),
+            Op::Assume { preds, .. } => preds.iter().map(|p| p.var).max(),
+            Op::Optimise { obj, .. } => Some(obj.var),
+            _ => None,
+        };
+        if max_var.is_some_and(|m| m >= self.binding.vars.len()) {
+            self.trace.add_s("skipped");
+            return Ok(());
+        }
         match op {
             Op::AddVar(decl) => {
                 if self.dead {
